@@ -411,6 +411,30 @@ pub fn length_ladder(thorough: bool) -> Vec<PortableRegistry> {
         o.push(one(mk(vec![], vec![], lit::tuple((0..n).map(|i| ((i % 3) as u32).into()).collect()), vec![])));
         o.push(PortableRegistry { types: (0..n).map(|i| lit::entry(i as u32, prim(i % PRIMS.len()))).collect() });
     }
+    // n entries of ONE leaf-like kind followed by a deeply nested entry (a variant with documented fields): anything that
+    // accumulates per entry of that kind (nesting accounting, buffers) shows up at the end
+    {
+        let rich = |id: u32| lit::entry(id, mk(vec!["m".into(), "Rich".into()], vec![lit::param("T".into(), Some(0.into()))],
+            lit::variants(vec![lit::variant("V".into(), vec![lit::field(Some("f".into()), 0.into(), Some("T".into()), vec!["field doc".into(), "".into()])], 7, vec!["variant doc".into()])]), vec!["type doc".into()]));
+        let kinds: Vec<PType> = vec![
+            prim(3),
+            mk(vec![], vec![], lit::tuple(vec![]), vec![]),
+            mk(vec!["E".into()], vec![], lit::composite(vec![]), vec![]),
+            mk(vec!["E".into()], vec![], lit::variants(vec![]), vec![]),
+            mk(vec![], vec![], lit::sequence(0.into()), vec![]),
+            mk(vec![], vec![], lit::array(3, 0.into()), vec![]),
+            mk(vec![], vec![], lit::compact(0.into()), vec![]),
+            mk(vec![], vec![], lit::bits(0.into(), 0.into()), vec![]),
+            mk(vec![], vec![lit::param("T".into(), None)], lit::tuple(vec![0.into()]), vec![]),
+        ];
+        for k in &kinds {
+            for n in if thorough { vec![20u32, 70, 300, 1100] } else { vec![20u32, 70, 300] } {
+                let mut types: Vec<PortableType> = (0..n).map(|i| lit::entry(i, k.clone())).collect();
+                types.push(rich(n));
+                o.push(PortableRegistry { types });
+            }
+        }
+    }
     // numeric slots at their extremes
     for len in [0u32, 1, 255, 256, 65535, 65536, u32::MAX] {
         o.push(one(mk(vec![], vec![], lit::array(len, 0.into()), vec![])));
